@@ -167,6 +167,9 @@ _MODULE_FUNCS = {
     ("math", "radians"): math.radians,
     ("math", "degrees"): math.degrees,
     ("math", "sqrt"): math.sqrt,
+    # builtin class methods that build plain values (insertion-ordered de-duplication etc.)
+    ("dict", "fromkeys"): lambda it, v=None: dict.fromkeys(list(it), v),
+    ("str", "join"): lambda sep, it: sep.join(list(it)),
 }
 
 
